@@ -32,7 +32,16 @@ fn main() {
         "frame_match" => frame_match(&input),
         "expand_terminates" => expand_terminates(&input),
         "source_map_tiles" => source_map_tiles(&input),
-        "nested_map_tiles" => nested_map_tiles(&input),
+        "nested_map_tiles" => nested_map_tiles(&input, false),
+        "nested_unmodified_entries" => nested_map_tiles(&input, true),
+        "frame_order" => dependency_order(&input, true),
+        "memory_order" => dependency_order(&input, false),
+        "concat" => concat(&input),
+        "eval_subst" => eval_subst(&input),
+        "call_resolve" => call_resolve(&input),
+        "gate_match" => gate_match(&input),
+        "memory_accesses" => memory_accesses(&input),
+        "type_check_oracle" => type_check_oracle(&input),
         other => {
             eprintln!("unknown replay kind {other}");
             std::process::exit(64);
@@ -103,6 +112,28 @@ fn instruction_views(text: &str) -> Result<(), String> {
             "to_instructions and into_instructions differ:\n  to:   {}\n  into: {}",
             show(&copied),
             show(&consumed)
+        ));
+    }
+    // the body is exactly what is not a definition (DEFCAL, DEFCIRCUIT, DEFFRAME, DECLARE, DEFGATE, DEFCAL MEASURE,
+    // DEFWAVEFORM, PRAGMA EXTERN — the name spelled exactly so), in listing order
+    let is_definition = |i: &Instruction| match i {
+        Instruction::CalibrationDefinition(_)
+        | Instruction::CircuitDefinition(_)
+        | Instruction::FrameDefinition(_)
+        | Instruction::Declaration(_)
+        | Instruction::GateDefinition(_)
+        | Instruction::MeasureCalibrationDefinition(_)
+        | Instruction::WaveformDefinition(_) => true,
+        Instruction::Pragma(p) => p.name == "EXTERN",
+        _ => false,
+    };
+    let expected_body: Vec<Instruction> = copied.iter().filter(|i| !is_definition(i)).cloned().collect();
+    let body: Vec<Instruction> = program.body_instructions().cloned().collect();
+    if body != expected_body {
+        return Err(format!(
+            "the body has {} instructions but the listing has {} that are not definitions (or they differ)",
+            body.len(),
+            expected_body.len()
         ));
     }
     let rebuilt = Program::from_instructions(copied);
@@ -435,34 +466,105 @@ fn source_map_tiles(text: &str) -> Result<(), String> {
     if next_target != target.len() {
         return Err(format!("the entries cover {next_target} target instructions but the output body has {}", target.len()));
     }
+    // "querying sources of a target and targets of a source are inverse": every target instruction has exactly one
+    // source, that source lists a target covering it, and every source lists at most one target
+    use quil_rs::program::{InstructionIndex, SourceMapIndexable};
+    for t in 0..target.len() {
+        let sources = map.list_sources(&InstructionIndex(t));
+        if sources.len() != 1 {
+            return Err(format!("target instruction {t} has {} sources", sources.len()));
+        }
+        let back = map.list_targets(sources[0]);
+        if !back.iter().any(|x| x.contains(&InstructionIndex(t))) {
+            return Err(format!("target {t} comes from source {} but none of that source's targets covers it", sources[0].0));
+        }
+    }
+    for s in 0..source.len() {
+        let targets = map.list_targets(&InstructionIndex(s));
+        if targets.len() > 1 {
+            return Err(format!("source instruction {s} has {} target entries", targets.len()));
+        }
+        for x in targets {
+            for t in 0..target.len() {
+                if x.contains(&InstructionIndex(t)) && map.list_sources(&InstructionIndex(t)) != vec![&InstructionIndex(s)] {
+                    return Err(format!("source {s} lists target {t}, whose sources are not just {s}"));
+                }
+            }
+        }
+    }
     Ok(())
 }
 
-/// C19 (nested part): inside every rewritten entry, the nested records are relative to the parent range and tile it
-fn nested_map_tiles(text: &str) -> Result<(), String> {
-    use quil_rs::program::{CalibrationExpansion, ExpansionResult};
+/// C19 (nested part): inside every rewritten entry, the nested records are relative to the parent range and tile it.
+/// `unmodified_too` = false checks the nested *rewritten* ranges (where each starts is recomputed from the entries
+/// before it: a nested entry whose calibration-body instruction is a definition — hoisted out of the body — takes no
+/// room, every other one takes its own length); `unmodified_too` = true also checks the indices stored in nested
+/// unmodified entries and that entries of hoisted instructions are gone.
+fn nested_map_tiles(text: &str, unmodified_too: bool) -> Result<(), String> {
+    use quil_rs::program::{CalibrationExpansion, CalibrationSource, ExpansionResult};
     let program = Program::from_str(text).map_err(|e| format!("input does not parse: {e}"))?;
     let (expanded, map) = program.expand_calibrations_with_source_map().map_err(|e| format!("expansion failed: {e}"))?;
     println!("expanded body:");
     for (k, i) in expanded.body_instructions().enumerate() {
         println!("  {k}: {}", quil_rs::quil::Quil::to_quil_or_debug(i));
     }
-    fn check(x: &CalibrationExpansion, depth: usize) -> Result<(), String> {
+    let hoisted = |i: &Instruction| match i {
+        Instruction::CalibrationDefinition(_)
+        | Instruction::CircuitDefinition(_)
+        | Instruction::FrameDefinition(_)
+        | Instruction::Declaration(_)
+        | Instruction::GateDefinition(_)
+        | Instruction::MeasureCalibrationDefinition(_)
+        | Instruction::WaveformDefinition(_) => true,
+        Instruction::Pragma(p) => p.name == "EXTERN",
+        _ => false,
+    };
+    // which instructions of the calibration's own body are definitions (substitution does not change the kind)
+    let body_kinds = |source: &CalibrationSource| -> Option<Vec<bool>> {
+        match source {
+            CalibrationSource::Calibration(id) => program
+                .calibrations
+                .iter_calibrations()
+                .find(|c| &c.identifier == id)
+                .map(|c| c.instructions.iter().map(|i| hoisted(i)).collect()),
+            CalibrationSource::MeasureCalibration(id) => program
+                .calibrations
+                .iter_measure_calibrations()
+                .find(|c| &c.identifier == id)
+                .map(|c| c.instructions.iter().map(|i| hoisted(i)).collect()),
+        }
+    };
+    fn check(
+        x: &CalibrationExpansion,
+        depth: usize,
+        unmodified_too: bool,
+        body_kinds: &dyn Fn(&CalibrationSource) -> Option<Vec<bool>>,
+    ) -> Result<(), String> {
         let len = x.range().end.0 - x.range().start.0;
-        println!("{}expansion of {:?} covers {}..{}", "  ".repeat(depth), x.calibration_used(), x.range().start.0, x.range().end.0);
+        let pad = "  ".repeat(depth);
+        println!("{pad}expansion of {:?} covers {}..{}", x.calibration_used(), x.range().start.0, x.range().end.0);
+        let kinds = body_kinds(x.calibration_used()).ok_or("the calibration an expansion names is not in the program")?;
         let mut next = 0usize;
         for entry in x.expansions().entries() {
+            let s = entry.source_location().0;
+            let is_hoisted = *kinds.get(s).ok_or(format!("nested source index {s} outside the calibration body"))?;
             match entry.target_location() {
                 ExpansionResult::Unmodified(t) => {
-                    println!("{}  source {} -> unmodified {}", "  ".repeat(depth), entry.source_location().0, t.0);
-                    if t.0 != next {
-                        return Err(format!("nested unmodified entry points to {} but the next uncovered index of its parent is {next}", t.0));
+                    println!("{pad}  source {s} -> unmodified {}{}", t.0, if is_hoisted { " (a definition: hoisted)" } else { "" });
+                    if is_hoisted {
+                        if unmodified_too {
+                            return Err(format!("nested entry for source {s} (a definition, hoisted out of the body) is still there, pointing to {}", t.0));
+                        }
+                    } else {
+                        if unmodified_too && t.0 != next {
+                            return Err(format!("nested unmodified entry for source {s} points to {} but it is instruction {next} of its parent's range", t.0));
+                        }
+                        next += 1;
                     }
-                    next += 1;
                 }
                 ExpansionResult::Rewritten(inner) => {
-                    println!("{}  source {} -> rewritten {}..{}", "  ".repeat(depth), entry.source_location().0, inner.range().start.0, inner.range().end.0);
-                    if inner.range().start.0 != next {
+                    println!("{pad}  source {s} -> rewritten {}..{}", inner.range().start.0, inner.range().end.0);
+                    if inner.range().start.0 != next || inner.range().end.0 < next {
                         return Err(format!(
                             "nested rewritten entry covers {}..{} (relative to its parent) but the next uncovered index of the parent is {next}",
                             inner.range().start.0,
@@ -470,18 +572,18 @@ fn nested_map_tiles(text: &str) -> Result<(), String> {
                         ));
                     }
                     next = inner.range().end.0;
-                    check(inner, depth + 1)?;
+                    check(inner, depth + 1, unmodified_too, body_kinds)?;
                 }
             }
         }
         if !x.expansions().entries().is_empty() && next != len {
-            return Err(format!("nested entries cover {next} instructions but the parent range has {len}"));
+            return Err(format!("nested entries account for {next} instructions but the parent range has {len}"));
         }
         Ok(())
     }
     for entry in map.entries() {
         if let ExpansionResult::Rewritten(x) = entry.target_location() {
-            check(x, 0)?;
+            check(x, 0, unmodified_too, &body_kinds)?;
         }
     }
     Ok(())
@@ -636,6 +738,482 @@ fn measure_match(text: &str) -> Result<(), String> {
                 show(found),
                 show(expected)
             ));
+        }
+    }
+    Ok(())
+}
+
+/// C23 / C24: conflicting instructions of a block are ordered in its dependency graph, and every memory / frame edge
+/// between two instructions links a conflicting pair (the oracle recomputes the conflicts from the default handler's
+/// answers for each instruction on its own)
+fn dependency_order(text: &str, frames: bool) -> Result<(), String> {
+    use quil_rs::instruction::{DefaultHandler, ExternSignatureMap, InstructionHandler, InstructionRole};
+    use quil_rs::program::scheduling::{ExecutionDependency, ScheduledGraphNode, ScheduledProgram};
+    use std::collections::HashSet;
+    let program = Program::from_str(text).map_err(|e| format!("input does not parse: {e}"))?;
+    let scheduled = match ScheduledProgram::from_program(&program, &DefaultHandler) {
+        Ok(s) => s,
+        Err(e) => {
+            println!("does not schedule: {e:?}");
+            return Ok(());
+        }
+    };
+    let externs = ExternSignatureMap::try_from(program.extern_pragma_map.clone()).map_err(|_| "extern map".to_string())?;
+    for (bk, block) in scheduled.basic_blocks().iter().enumerate() {
+        let graph = block.get_dependency_graph();
+        let n = block.instructions().len();
+        let reach = |from: usize, to: usize, want: &dyn Fn(&ExecutionDependency) -> bool| -> bool {
+            let mut seen = HashSet::new();
+            let mut stack = vec![ScheduledGraphNode::InstructionIndex(from)];
+            while let Some(node) = stack.pop() {
+                if node == ScheduledGraphNode::InstructionIndex(to) {
+                    return true;
+                }
+                if !seen.insert(node) {
+                    continue;
+                }
+                for (s, t, w) in graph.all_edges() {
+                    if s == node && w.iter().any(|d| want(d)) {
+                        stack.push(t);
+                    }
+                }
+            }
+            false
+        };
+        if frames {
+            let info: Vec<Option<(HashSet<String>, HashSet<String>, bool)>> = block
+                .instructions()
+                .iter()
+                .map(|i| {
+                    if DefaultHandler.role(i) != InstructionRole::RFControl {
+                        return None;
+                    }
+                    let show = |f: &quil_rs::instruction::FrameIdentifier| quil_rs::quil::Quil::to_quil_or_debug(f);
+                    DefaultHandler.matching_frames(&program, i).map(|m| {
+                        (
+                            m.used.iter().map(|f| show(f)).collect(),
+                            m.blocked.iter().map(|f| show(f)).collect(),
+                            DefaultHandler.is_scheduled(i),
+                        )
+                    })
+                })
+                .collect();
+            let conflict = |a: usize, b: usize| -> bool {
+                match (&info[a], &info[b]) {
+                    (Some((ua, ba, _)), Some((ub, bb, _))) => {
+                        ua.iter().any(|f| ub.contains(f) || bb.contains(f)) || ub.iter().any(|f| ua.contains(f) || ba.contains(f))
+                    }
+                    _ => false,
+                }
+            };
+            for j in 0..n {
+                for i in 0..j {
+                    if conflict(i, j) {
+                        if !reach(i, j, &|d| *d == ExecutionDependency::StableOrdering) {
+                            return Err(format!("block {bk}: instruction {j} uses or blocks a frame that instruction {i} uses (or the reverse) but does not depend on it through ordering edges"));
+                        }
+                        let timed = info[i].as_ref().unwrap().2 && info[j].as_ref().unwrap().2;
+                        if timed && !reach(i, j, &|d| *d == ExecutionDependency::Scheduled) {
+                            return Err(format!("block {bk}: timed instruction {j} conflicts with timed instruction {i} but does not depend on it through timed edges"));
+                        }
+                    }
+                }
+            }
+            for (s, t, w) in graph.all_edges() {
+                if let (ScheduledGraphNode::InstructionIndex(a), ScheduledGraphNode::InstructionIndex(b)) = (s, t) {
+                    let frame_edge = w.iter().any(|d| matches!(d, ExecutionDependency::StableOrdering | ExecutionDependency::Scheduled));
+                    if frame_edge && !(a < b && conflict(a, b)) {
+                        return Err(format!("block {bk}: frame edge {a} -> {b} does not connect a conflicting pair in program order"));
+                    }
+                }
+            }
+        } else {
+            let mut acc = vec![];
+            for i in block.instructions().iter() {
+                let m = DefaultHandler.memory_accesses(&externs, i).map_err(|e| format!("memory accesses: {e:?}"))?;
+                let mut w: HashSet<String> = m.writes.clone();
+                w.extend(m.captures.iter().cloned());
+                let mut all = w.clone();
+                all.extend(m.reads.iter().cloned());
+                acc.push((w, all));
+            }
+            let conflict = |a: usize, b: usize| -> bool {
+                acc[a].0.iter().any(|r| acc[b].1.contains(r)) || acc[b].0.iter().any(|r| acc[a].1.contains(r))
+            };
+            for j in 0..n {
+                for i in 0..j {
+                    if conflict(i, j) && !reach(i, j, &|_| true) {
+                        return Err(format!("block {bk}: instructions {i} and {j} touch the same region, one of them writing, but {j} does not depend on {i}"));
+                    }
+                }
+            }
+            for (s, t, w) in graph.all_edges() {
+                if let (ScheduledGraphNode::InstructionIndex(a), ScheduledGraphNode::InstructionIndex(b)) = (s, t) {
+                    let memory_edge = w.iter().any(|d| matches!(d, ExecutionDependency::AwaitMemoryAccess(_)));
+                    if memory_edge && !(a < b && conflict(a, b)) {
+                        return Err(format!("block {bk}: memory edge {a} -> {b} does not connect a conflicting pair in program order"));
+                    }
+                }
+            }
+        }
+        println!("block {bk}: {n} instructions, {} edges checked", graph.edge_count());
+    }
+    Ok(())
+}
+
+/// C11: `a + b` and `a += b` append the bodies and merge the definitions, those of `b` winning (two programs
+/// separated by a line `=====`)
+fn concat(text: &str) -> Result<(), String> {
+    let (a, b) = text.split_once("\n=====\n").ok_or("two programs separated by ===== expected")?;
+    let pa = Program::from_str(a).map_err(|e| format!("first program does not parse: {e}"))?;
+    let pb = Program::from_str(b).map_err(|e| format!("second program does not parse: {e}"))?;
+    let mut assigned = pa.clone();
+    assigned += pb.clone();
+    let sum = pa.clone() + pb.clone();
+    for (what, s) in [("a + b", &sum), ("a += b", &assigned)] {
+        let body: Vec<Instruction> = s.body_instructions().cloned().collect();
+        let want: Vec<Instruction> = pa.body_instructions().chain(pb.body_instructions()).cloned().collect();
+        if body != want {
+            return Err(format!("{what}: the body is not a's body followed by b's"));
+        }
+        for (id, attrs) in pb.frames.iter() {
+            if s.frames.get(id) != Some(attrs) {
+                return Err(format!("{what}: frame {} does not have b's definition", quil_rs::quil::Quil::to_quil_or_debug(id)));
+            }
+        }
+        for (id, attrs) in pa.frames.iter() {
+            if pb.frames.get(id).is_none() && s.frames.get(id) != Some(attrs) {
+                return Err(format!("{what}: frame {} defined only in a is not kept", quil_rs::quil::Quil::to_quil_or_debug(id)));
+            }
+        }
+        if s.frames.len() != pa.frames.iter().filter(|(id, _)| pb.frames.get(id).is_none()).count() + pb.frames.len() {
+            return Err(format!("{what}: frames other than those of a and b"));
+        }
+        for (name, region) in pb.memory_regions.iter() {
+            if s.memory_regions.get(name) != Some(region) {
+                return Err(format!("{what}: region {name} does not have b's declaration"));
+            }
+        }
+        for (name, region) in pa.memory_regions.iter() {
+            if pb.memory_regions.get(name).is_none() && s.memory_regions.get(name) != Some(region) {
+                return Err(format!("{what}: region {name} declared only in a is not kept"));
+            }
+        }
+        for (name, w) in pb.waveforms.iter() {
+            if s.waveforms.get(name) != Some(w) {
+                return Err(format!("{what}: waveform {name} does not have b's definition"));
+            }
+        }
+        for (name, g) in pb.gate_definitions.iter() {
+            if s.gate_definitions.get(name) != Some(g) {
+                return Err(format!("{what}: gate {name} does not have b's definition"));
+            }
+        }
+        for (name, g) in pa.gate_definitions.iter() {
+            if pb.gate_definitions.get(name).is_none() && s.gate_definitions.get(name) != Some(g) {
+                return Err(format!("{what}: gate {name} defined only in a is not kept"));
+            }
+        }
+        let used: std::collections::HashSet<_> = pa.get_used_qubits().union(pb.get_used_qubits()).cloned().collect();
+        // (when b redefines a calibration of a, the qubits of the replaced body are no longer mentioned: C10 governs)
+        if !s.get_used_qubits().is_subset(&used) {
+            return Err(format!("{what}: used qubits outside the union"));
+        }
+        println!("{what}: {} body instructions, {} frames, {} regions", body.len(), s.frames.len(), s.memory_regions.len());
+    }
+    let empty = Program::new();
+    if pa.clone() + empty.clone() != pa || empty + pa.clone() != pa {
+        return Err("concatenation with an empty program is not an identity".to_string());
+    }
+    Ok(())
+}
+
+/// C13: each line is an expression over variables %x %y %z %w and memory m[0], m[1], n[0].  Substituting numbers
+/// for the variables and evaluating gives the value of evaluating with the variables bound; the reported memory
+/// references are the addresses occurring in the tree; evaluation succeeds iff every variable / cell is supplied
+fn eval_subst(text: &str) -> Result<(), String> {
+    use quil_rs::expression::Expression;
+    use std::collections::{HashMap, HashSet};
+    fn walk(e: &Expression, vars: &mut HashSet<String>, refs: &mut Vec<(String, u64)>) {
+        match e {
+            Expression::Address(m) => refs.push((m.name.clone(), m.index)),
+            Expression::FunctionCall(f) => walk(&f.expression, vars, refs),
+            Expression::Infix(i) => {
+                walk(&i.left, vars, refs);
+                walk(&i.right, vars, refs);
+            }
+            Expression::Prefix(p) => walk(&p.expression, vars, refs),
+            Expression::Variable(v) => {
+                vars.insert(v.clone());
+            }
+            Expression::Number(_) | Expression::PiConstant() => {}
+        }
+    }
+    // (no zeros among the values: interning identifies +0.0 and -0.0, the known finding C13.eq.number)
+    let values = [("x", (1.3, 0.2)), ("y", (2.1, -0.4)), ("z", (-0.7, 0.35)), ("w", (0.45, 1.1))];
+    let same = |a: num_complex::Complex64, b: num_complex::Complex64| (a.re == b.re || (a.re.is_nan() && b.re.is_nan())) && (a.im == b.im || (a.im.is_nan() && b.im.is_nan()));
+    for line in text.lines().filter(|l| !l.trim().is_empty()) {
+        let e = Expression::from_str(line).map_err(|e| format!("`{line}` does not parse: {e}"))?;
+        let mut used = HashSet::new();
+        let mut addresses = vec![];
+        walk(&e, &mut used, &mut addresses);
+        let reported: HashSet<(String, u64)> = e.memory_references().map(|m| (m.name.clone(), m.index)).collect();
+        let occurring: HashSet<(String, u64)> = addresses.iter().cloned().collect();
+        if reported != occurring {
+            return Err(format!("`{line}`: reports memory references {reported:?} but {occurring:?} occur in it"));
+        }
+        let vars: HashMap<String, num_complex::Complex64> =
+            values.iter().map(|(n, (re, im))| (n.to_string(), num_complex::Complex64::new(*re, *im))).collect();
+        let mem: HashMap<&str, Vec<f64>> = HashMap::from([("m", vec![0.75, -1.25]), ("n", vec![2.5])]);
+        let bound = e.evaluate(&vars, &mem);
+        let as_numbers: HashMap<String, Expression> = vars.iter().map(|(k, v)| (k.clone(), Expression::Number(*v))).collect();
+        let nothing: HashMap<String, num_complex::Complex64> = HashMap::new();
+        let substituted = e.substitute_variables(&as_numbers).evaluate(&nothing, &mem);
+        println!("{line}: bound {bound:?}, substituted {substituted:?}");
+        match (&bound, &substituted) {
+            (Ok(a), Ok(b)) if same(*a, *b) => {}
+            (Err(_), Err(_)) => {}
+            _ => return Err(format!("`{line}`: {bound:?} with the variables bound, {substituted:?} after substituting them")),
+        }
+        let supplied = used.iter().all(|v| vars.contains_key(v))
+            && occurring.iter().all(|(n, i)| mem.get(n.as_str()).map_or(false, |v| (*i as usize) < v.len()));
+        if supplied != bound.is_ok() {
+            return Err(format!("`{line}`: everything supplied = {supplied} but evaluation gave {bound:?}"));
+        }
+        // leave one used variable / one referenced region out: evaluation must fail
+        for v in &used {
+            let mut fewer = vars.clone();
+            fewer.remove(v);
+            if e.evaluate(&fewer, &mem).is_ok() {
+                return Err(format!("`{line}`: evaluates although variable {v} is not supplied"));
+            }
+        }
+        for (n, _) in &occurring {
+            let mut fewer = mem.clone();
+            fewer.remove(n.as_str());
+            if e.evaluate(&vars, &fewer).is_ok() {
+                return Err(format!("`{line}`: evaluates although region {n} is not supplied"));
+            }
+        }
+    }
+    Ok(())
+}
+
+/// C30: a program type-checks iff each of its body instructions type-checks against the declarations on its own;
+/// a first line `# expect ok` / `# expect error` also pins the verdict
+fn type_check_oracle(text: &str) -> Result<(), String> {
+    use quil_rs::program::type_check::type_check;
+    let program = Program::from_str(text).map_err(|e| format!("input does not parse: {e}"))?;
+    let whole = type_check(&program).is_ok();
+    let mut each = true;
+    for (k, i) in program.body_instructions().enumerate() {
+        let mut single = program.clone_without_body_instructions();
+        single.add_instruction(i.clone());
+        let ok = type_check(&single).is_ok();
+        println!("instruction {k} ({}) on its own: {}", quil_rs::quil::Quil::to_quil_or_debug(i), if ok { "ok" } else { "error" });
+        each &= ok;
+    }
+    println!("whole program: {}", if whole { "ok" } else { "error" });
+    if whole != each {
+        return Err(format!("the program type-checks: {whole}; every instruction on its own: {each}"));
+    }
+    // the verdict does not depend on the order of the body or on duplicates
+    let mut reversed = program.clone_without_body_instructions();
+    for i in program.body_instructions().collect::<Vec<_>>().into_iter().rev() {
+        reversed.add_instruction(i.clone());
+        reversed.add_instruction(i.clone());
+    }
+    if type_check(&reversed).is_ok() != whole {
+        return Err("the verdict changes when the body is reversed and every instruction duplicated".to_string());
+    }
+    if let Some(first) = text.lines().next() {
+        if first.trim() == "# expect ok" && !whole {
+            return Err(format!("expected to type-check: {:?}", type_check(&program)));
+        }
+        if first.trim() == "# expect error" && whole {
+            return Err("expected a type error".to_string());
+        }
+    }
+    Ok(())
+}
+
+/// C27: for every body instruction with a fixed meaning (classical instructions, control flow, frame mutations,
+/// pulses, captures, measurements) the default handler reports as read the regions it consults, as written the
+/// regions it assigns, as captured the regions that receive readout results
+fn memory_accesses(text: &str) -> Result<(), String> {
+    use quil_rs::expression::Expression;
+    use quil_rs::instruction::{ArithmeticOperand, BinaryOperand, ComparisonOperand, DefaultHandler, ExternSignatureMap, InstructionHandler, MemoryReference};
+    use std::collections::HashSet;
+    let program = Program::from_str(text).map_err(|e| format!("input does not parse: {e}"))?;
+    let externs = ExternSignatureMap::try_from(program.extern_pragma_map.clone()).map_err(|_| "extern map".to_string())?;
+    type S = HashSet<String>;
+    let one = |m: &MemoryReference| -> S { HashSet::from([m.name.clone()]) };
+    let arith = |o: &ArithmeticOperand| -> S { if let ArithmeticOperand::MemoryReference(m) = o { HashSet::from([m.name.clone()]) } else { HashSet::new() } };
+    let expr = |e: &Expression| -> S { e.memory_references().map(|m| m.name.clone()).collect() };
+    let wave = |w: &quil_rs::instruction::WaveformInvocation| -> S { w.parameters.values().flat_map(|e| e.memory_references().map(|m| m.name.clone())).collect() };
+    let u = |a: S, b: S| -> S { a.union(&b).cloned().collect() };
+    let none = || -> S { HashSet::new() };
+    for (k, i) in program.body_instructions().enumerate() {
+        let expected: Option<(S, S, S)> = match i {
+            Instruction::Convert(c) => Some((one(&c.source), one(&c.destination), none())),
+            Instruction::Move(m) => Some((arith(&m.source), one(&m.destination), none())),
+            Instruction::BinaryLogic(b) => Some((
+                u(one(&b.destination), if let BinaryOperand::MemoryReference(m) = &b.source { one(m) } else { none() }),
+                one(&b.destination),
+                none(),
+            )),
+            Instruction::Arithmetic(a) => Some((u(one(&a.destination), arith(&a.source)), one(&a.destination), none())),
+            Instruction::UnaryLogic(x) => Some((one(&x.operand), one(&x.operand), none())),
+            Instruction::Exchange(x) => Some((u(one(&x.left), one(&x.right)), u(one(&x.left), one(&x.right)), none())),
+            Instruction::JumpWhen(j) => Some((one(&j.condition), none(), none())),
+            Instruction::JumpUnless(j) => Some((one(&j.condition), none(), none())),
+            Instruction::Comparison(c) => Some((
+                u(one(&c.lhs), if let ComparisonOperand::MemoryReference(m) = &c.rhs { one(m) } else { none() }),
+                one(&c.destination),
+                none(),
+            )),
+            Instruction::Delay(d) => Some((expr(&d.duration), none(), none())),
+            Instruction::SetPhase(x) => Some((expr(&x.phase), none(), none())),
+            Instruction::SetScale(x) => Some((expr(&x.scale), none(), none())),
+            Instruction::ShiftPhase(x) => Some((expr(&x.phase), none(), none())),
+            Instruction::SetFrequency(x) => Some((expr(&x.frequency), none(), none())),
+            Instruction::ShiftFrequency(x) => Some((expr(&x.frequency), none(), none())),
+            Instruction::Pulse(p) => Some((wave(&p.waveform), none(), none())),
+            Instruction::Capture(c) => Some((wave(&c.waveform), none(), one(&c.memory_reference))),
+            Instruction::RawCapture(c) => Some((expr(&c.duration), none(), one(&c.memory_reference))),
+            Instruction::Measurement(m) => Some((none(), none(), m.target.as_ref().map(|t| one(t)).unwrap_or_default())),
+            Instruction::Load(l) => Some((HashSet::from([l.source.clone(), l.offset.name.clone()]), one(&l.destination), none())),
+            Instruction::Store(x) => Some((u(one(&x.offset), arith(&x.source)), HashSet::from([x.destination.clone()]), none())),
+            Instruction::Fence(_) | Instruction::Halt() | Instruction::Wait() | Instruction::Jump(_) | Instruction::Label(_)
+            | Instruction::Nop() | Instruction::Pragma(_) | Instruction::Reset(_) | Instruction::SwapPhases(_) => Some((none(), none(), none())),
+            _ => None,
+        };
+        let Some((reads, writes, captures)) = expected else { continue };
+        let got = DefaultHandler.memory_accesses(&externs, i).map_err(|e| format!("instruction {k}: {e:?}"))?;
+        let shown = quil_rs::quil::Quil::to_quil_or_debug(i);
+        println!("{k}: {shown}: reads {:?} writes {:?} captures {:?}", got.reads, got.writes, got.captures);
+        if got.reads != reads || got.writes != writes || got.captures != captures {
+            return Err(format!(
+                "`{shown}` reports reads {:?} writes {:?} captures {:?}; its meaning gives reads {reads:?} writes {writes:?} captures {captures:?}",
+                got.reads, got.writes, got.captures
+            ));
+        }
+    }
+    Ok(())
+}
+
+/// C16 (gates): a gate matches only calibrations with its name, modifiers, parameter and qubit counts whose fixed
+/// qubits and non-variable parameters equal its own; most fixed qubits wins, ties go to the later definition
+fn gate_match(text: &str) -> Result<(), String> {
+    use quil_rs::expression::Expression;
+    use quil_rs::instruction::Qubit;
+    let program = Program::from_str(text).map_err(|e| format!("input does not parse: {e}"))?;
+    let definitions: Vec<_> = program.calibrations.iter_calibrations().collect();
+    for instruction in program.body_instructions() {
+        let Instruction::Gate(g) = instruction else { continue };
+        let mut best: Option<(usize, &quil_rs::instruction::CalibrationDefinition)> = None;
+        for d in &definitions {
+            let id = &d.identifier;
+            if id.name != g.name || id.modifiers != g.modifiers || id.parameters.len() != g.parameters.len() || id.qubits.len() != g.qubits.len() {
+                continue;
+            }
+            let qubits_fit = id.qubits.iter().zip(g.qubits.iter()).all(|(c, q)| match c {
+                Qubit::Fixed(_) => c == q,
+                Qubit::Variable(_) => true,
+                Qubit::Placeholder(_) => c == q,
+            });
+            let parameters_fit = id.parameters.iter().zip(g.parameters.iter()).all(|(c, p)| match c {
+                Expression::Variable(_) => true,
+                _ => c.clone().into_simplified() == p.clone().into_simplified(),
+            });
+            if !(qubits_fit && parameters_fit) {
+                continue;
+            }
+            let fixed = id.qubits.iter().filter(|q| matches!(q, Qubit::Fixed(_))).count();
+            if best.map_or(true, |(n, _)| fixed >= n) {
+                best = Some((fixed, *d));
+            }
+        }
+        let expected = best.map(|(_, d)| d);
+        let found = program.calibrations.get_match_for_gate(g);
+        let show = |d: Option<&quil_rs::instruction::CalibrationDefinition>| {
+            d.map(|d| quil_rs::quil::Quil::to_quil_or_debug(d).replace('\n', " | ")).unwrap_or_else(|| "none".to_string())
+        };
+        println!("{}: {}", quil_rs::quil::Quil::to_quil_or_debug(instruction), show(found));
+        if found != expected {
+            return Err(format!(
+                "`{}` is matched with [{}] but the rules give [{}]",
+                quil_rs::quil::Quil::to_quil_or_debug(instruction),
+                show(found),
+                show(expected)
+            ));
+        }
+    }
+    Ok(())
+}
+
+/// C31 / C27 (CALL): a CALL resolves iff its argument count matches and each argument fits its slot; the return
+/// slot and every region passed to a mutable parameter are written and every passed region is read
+fn call_resolve(text: &str) -> Result<(), String> {
+    use quil_rs::instruction::{DefaultHandler, ExternParameterType, ExternSignatureMap, InstructionHandler, UnresolvedCallArgument};
+    use std::collections::HashSet;
+    let program = Program::from_str(text).map_err(|e| format!("input does not parse: {e}"))?;
+    let externs = ExternSignatureMap::try_from(program.extern_pragma_map.clone()).map_err(|(p, e)| format!("extern {p:?}: {e:?}"))?;
+    let regions = &program.memory_regions;
+    for instruction in program.body_instructions() {
+        let Instruction::Call(call) = instruction else { continue };
+        let shown = quil_rs::quil::Quil::to_quil_or_debug(instruction);
+        let resolved = call.resolve_arguments(regions, &externs);
+        let Some((_, signature)) = externs.iter().find(|(name, _)| **name == call.name) else {
+            if resolved.is_ok() {
+                return Err(format!("`{shown}` resolves although no extern of that name is declared"));
+            }
+            continue;
+        };
+        let type_of = |name: &str| regions.get(name).map(|r| r.size.clone());
+        let returns = signature.return_type().is_some();
+        let expected_count = signature.parameters().len() + usize::from(returns);
+        let mut fits = call.arguments().len() == expected_count;
+        let (mut reads, mut writes): (HashSet<String>, HashSet<String>) = (HashSet::new(), HashSet::new());
+        for (i, argument) in call.arguments().iter().enumerate() {
+            let passed = match argument {
+                UnresolvedCallArgument::Identifier(n) => Some(n.clone()),
+                UnresolvedCallArgument::MemoryReference(m) => Some(m.name.clone()),
+                UnresolvedCallArgument::Immediate(_) => None,
+            };
+            if i == 0 && returns {
+                let t = signature.return_type().unwrap();
+                fits &= passed.as_deref().and_then(type_of).map_or(false, |v| v.data_type == *t);
+                if let Some(n) = passed {
+                    reads.insert(n.clone());
+                    writes.insert(n);
+                }
+                continue;
+            }
+            let Some(parameter) = signature.parameters().get(i - usize::from(returns)) else { continue };
+            fits &= match (parameter.data_type(), argument) {
+                (ExternParameterType::Scalar(t), UnresolvedCallArgument::Immediate(_)) => { let _ = t; !parameter.mutable() }
+                (ExternParameterType::Scalar(t), _) => passed.as_deref().and_then(type_of).map_or(false, |v| v.data_type == *t),
+                (ExternParameterType::FixedLengthVector(v), UnresolvedCallArgument::Identifier(n)) => type_of(n).map_or(false, |r| r == *v),
+                (ExternParameterType::VariableLengthVector(t), UnresolvedCallArgument::Identifier(n)) => type_of(n).map_or(false, |r| r.data_type == *t),
+                _ => false,
+            };
+            if let Some(n) = passed {
+                reads.insert(n.clone());
+                if parameter.mutable() {
+                    writes.insert(n);
+                }
+            }
+        }
+        println!("{shown}: resolves {}, the rules say {fits}", resolved.is_ok());
+        if resolved.is_ok() != fits {
+            return Err(format!("`{shown}` resolves: {} ({:?}), but by the rules it should: {fits}", resolved.is_ok(), resolved.as_ref().err()));
+        }
+        if fits {
+            let got = DefaultHandler.memory_accesses(&externs, instruction).map_err(|e| format!("memory accesses of `{shown}`: {e:?}"))?;
+            if got.reads != reads || got.writes != writes || !got.captures.is_empty() {
+                return Err(format!("`{shown}` reports reads {:?} writes {:?} captures {:?}; the rules give reads {reads:?} writes {writes:?}", got.reads, got.writes, got.captures));
+            }
         }
     }
     Ok(())
